@@ -50,18 +50,18 @@ SPEC = dict(
     ],
     units=[
         pbt("c18_ws", "harness/c18_ws.cpp", dict(
-            frame_roundtrip=P(1500, 20000, 4, 16),
-            server_segments=P(200, 2500, 4, 16),
-            client_segments=P(200, 2500, 4, 16),
-            server_wire=P(200, 4000, 2, 8, **_LOOP),
-            client_wire=P(100, 2500, 2, 8, **_LOOP),
-            server_close_race=P(100, 2000, 1, 4, **_LOOP),
-            client_close_race=P(100, 2000, 1, 4, **_LOOP),
-            hostile=P(2000, 40000, 2, 8),
+            frame_roundtrip=P(1500, 10000, 4, 16),
+            server_segments=P(200, 600, 4, 16),
+            client_segments=P(200, 600, 4, 16),
+            server_wire=P(200, 2000, 2, 8, **_LOOP),
+            client_wire=P(100, 1500, 2, 8, **_LOOP),
+            server_close_race=P(100, 1000, 1, 4, **_LOOP),
+            client_close_race=P(100, 1000, 1, 4, **_LOOP),
+            hostile=P(2000, 15000, 2, 8),
         )),
         fuzz("c18_fuzz_ws", "harness/fuzz_ws.cpp",
              dict(runs=150000, procs=4, max_len=512, max_seconds=25, malloc_limit_mb=64, rss_limit_mb=2048),
-             dict(runs=20000000, procs=16, max_len=4096, max_seconds=300, malloc_limit_mb=64, rss_limit_mb=2048),
+             dict(runs=20000000, procs=16, max_len=4096, max_seconds=240, malloc_limit_mb=64, rss_limit_mb=2048),
              corpus="corpus/C18"),
     ],
 )
